@@ -13,12 +13,12 @@ from . import c03
 
 LEVEL = 'exploration'
 RULE = (
-    'histories of writes (file-backed 1-8 KiB and inline values), reads (get, [], incr), non-reads (touch, in), clock '
+    'histories of writes (file-backed 1-16 KiB bytes, file-backed non-ASCII text and inline values), reads (get, [], incr), non-reads (touch, in), clock '
     'steps, expiring items and cull() under policy x cull_limit in {0,1,2,10} x size_limit in {40k,64k,100k}; after every '
     'call the set of vanished keys must be explained: expired, or evicted with the volume observed at the SQL seam >= '
     'size_limit, policy != none, at most cull_limit per write, and policy-minimal against every survivor (model keeps '
     'store sequence, store-or-read sequence, read count); cull(): no expired item left, policy-ordered prefix, ends '
-    'with volume <= limit or empty, returns the number removed. non-trivial = >= 1 policy eviction whose victim set '
+    'with volume <= limit (volume() and the independently measured database pages + value files) or empty, returns the number removed. non-trivial = >= 1 policy eviction whose victim set '
     'differs from plain insertion order (a read or re-store changed the order), or a cull() that removed both expired '
     'and live items; distinct by SHA-1 of the canonical case'
 )
